@@ -38,7 +38,7 @@ def chain_case(rnd, idx):
     clean intermediate files in front of an erroneous innermost one)"""
     cid = f"c{idx}"
     root = f"{BASE}/{cid}"
-    k = rnd.randint(2, 4)
+    k = rnd.randint(2, 4) if rnd.random() < 0.8 else rnd.choice([9, 11, 12, 17, 18, 24])     # also chains far deeper than any realistic guard
     names = [f"f{j}.inc" for j in range(1, k + 1)]
     bad = [rnd.random() < 0.35 for _ in range(k)]
     bad[-1] = True if rnd.random() < 0.7 else bad[-1]
@@ -213,7 +213,7 @@ def splice(case, text, depth=0):
     out = []
     for ln in text.split("\n"):
         m = re.fullmatch(r'include "([^"]+)";', ln.strip())
-        if m and m.group(1) != "stdgates.inc" and depth < 6:
+        if m and m.group(1) != "stdgates.inc" and depth < 60:
             p = expected_resolution(case, m.group(1))
             root = case["root"]
             rel = p[len(root) + 1:] if p.startswith(root + "/") else p
